@@ -5,35 +5,37 @@
 import Sigverif.Model.Grammar
 namespace SV
 namespace Flat
+variable {kids : List NS} {rev : List (Tree × Nat)}
 
-/-- a visitor state with a single namespace (the main function's), nothing deferred -/
-def mk (names : List (Nat × Entry)) (imm : List Nat) (calls : List CallRec) : VState :=
-  { nss := [{ parent := none, names := names, nonlocals := [], imm := imm }], cur := 0, calls := calls,
-    revisit := [], hasVa := true, hasVk := true }
+/-- a visitor state positioned in the main function's namespace (index 0); `kids` are the namespaces of
+    the nested functions seen so far, `rev` the calls deferred so far -/
+def mk (kids : List NS) (rev : List (Tree × Nat)) (names : List (Nat × Entry)) (imm : List Nat) (calls : List CallRec) : VState :=
+  { nss := { parent := none, names := names, nonlocals := [], imm := imm } :: kids, cur := 0, calls := calls,
+    revisit := rev, hasVa := true, hasVk := true }
 
 theorem lookup_mk (n : List (Nat × Entry)) (i : List Nat) (c : List CallRec) (x : Nat) :
-    (mk n i c).lookup x = (dget n x).map (fun e => (0, e)) := by
+    (mk kids rev n i c).lookup x = (dget n x).map (fun e => (0, e)) := by
   simp only [VState.lookup, mk, List.length_cons, List.length_nil, nsLookup, VState.ns, List.getD_cons_zero, dget,
     Option.getD_none]
   cases dget n x <;> rfl
 
 theorem assign_mk (n : List (Nat × Entry)) (i : List Nat) (c : List CallRec) (x : Nat) (e : Entry) :
-    (mk n i c).assign x e = mk (dset n x e) (i.filter (· ≠ x)) c := by
+    (mk kids rev n i c).assign x e = mk kids rev (dset n x e) (i.filter (· ≠ x)) c := by
   simp [VState.assign, mk, VState.ns, VState.setNs, dget]
 
 theorem isImm_mk (n : List (Nat × Entry)) (i : List Nat) (c : List CallRec) (x : Nat) :
-    (mk n i c).isImm x = i.contains x := by
+    (mk kids rev n i c).isImm x = i.contains x := by
   simp [VState.isImm, mk, VState.ns, dget]
 
 theorem visitName_mk (n : List (Nat × Entry)) (i : List Nat) (c : List CallRec) (x : Nat) (ctx : Ctx) :
-    visitName (mk n i c) x ctx =
-      if i.contains x && ctx = .load then mk n i c else mk (dset n x { m := .unknown }) (i.filter (· ≠ x)) c := by
+    visitName (mk kids rev n i c) x ctx =
+      if i.contains x && ctx = .load then mk kids rev n i c else mk kids rev (dset n x { m := .unknown }) (i.filter (· ≠ x)) c := by
   simp only [visitName, isImm_mk, assign_mk]
 
 theorem taint_mk (n : List (Nat × Entry)) (i : List Nat) (c : List CallRec) (x : Nat) :
-    (mk n i c).taint x = match dget n x with
-      | some e => mk (dset n x { e with tainted := true }) i c
-      | none => mk n i c := by
+    (mk kids rev n i c).taint x = match dget n x with
+      | some e => mk kids rev (dset n x { e with tainted := true }) i c
+      | none => mk kids rev n i c := by
   simp only [VState.taint, lookup_mk]
   cases h : dget n x with
   | none => rfl
@@ -44,6 +46,7 @@ end SV
 
 namespace SV
 namespace Flat
+variable {kids : List NS} {rev : List (Tree × Nat)}
 
 theorem visit_const (force : Bool) (st : VState) : visit force constT st = st := by
   simp [constT, visit, visitList]
@@ -118,6 +121,7 @@ end SV
 
 namespace SV
 namespace Flat
+variable {kids : List NS} {rev : List (Tree × Nat)}
 
 /-- the marker a callee expression resolves to in a flat state -/
 def markerIn (n : List (Nat × Entry)) : Tree → RM
@@ -128,7 +132,7 @@ def markerIn (n : List (Nat × Entry)) : Tree → RM
   | _ => .unknown
 
 theorem resolveCore_marker (n : List (Nat × Entry)) (i : List Nat) (c : List CallRec) :
-    (t : Tree) → isCalleeTree t = true → (resolveCore t true (mk n i c)).1.1 = markerIn n t
+    (t : Tree) → isCalleeTree t = true → (resolveCore t true (mk kids rev n i c)).1.1 = markerIn n t
   | .name id ctx, _ => by
     simp only [resolveCore, lookup_mk, markerIn]
     cases dget n id <;> rfl
@@ -158,14 +162,14 @@ def starFound (n : List (Nat × Entry)) (x : Nat) : RM :=
   | none => .nm x
 
 theorem resolveOnlyStar_name (n : List (Nat × Entry)) (i : List Nat) (c : List CallRec) (x : Nat) :
-    resolveOnlyStar (.starred (.name x .load) .nil) (mk n i c) = (some (starFound n x), mk n i c) := by
+    resolveOnlyStar (.starred (.name x .load) .nil) (mk kids rev n i c) = (some (starFound n x), mk kids rev n i c) := by
   simp only [resolveOnlyStar, resolveCore, lookup_mk, isNameNode, if_true, starFound, untaint]
   cases dget n x with
   | none => simp
   | some e => simp
 
 theorem resolveOnlyDstar_name (n : List (Nat × Entry)) (i : List Nat) (c : List CallRec) (x : Nat) :
-    resolveOnlyDstar (.dstar (.name x .load) .nil) (mk n i c) = (some (starFound n x), mk n i c) := by
+    resolveOnlyDstar (.dstar (.name x .load) .nil) (mk kids rev n i c) = (some (starFound n x), mk kids rev n i c) := by
   simp only [resolveOnlyDstar, resolveCore, lookup_mk, isNameNode, if_true, starFound, untaint]
   cases dget n x with
   | none => simp
@@ -185,29 +189,29 @@ def taintCallee (n : List (Nat × Entry)) (w : RM) : List (Nat × Entry) :=
     change to the namespace is the `tainted` flag of the callee's root when it is a parameter -/
 theorem visit_callTree (va vk : Nat) (callee : Tree) (hc : isCalleeTree callee = true) (npos : Nat)
     (kws : List Nat) (uva uvk : Bool) (n : List (Nat × Entry)) (i : List Nat) (c : List CallRec) :
-    visit false (callTree va vk callee npos kws uva uvk) (mk n i c) =
+    visit false (callTree va vk callee npos kws uva uvk) (mk kids rev n i c) =
       let n' := taintCallee n (markerIn n callee)
       let fa := if uva then some (starFound n' va) else none
       let fk := if uvk then some (starFound n' vk) else none
-      mk n' i (c ++ [{ wrapped := markerIn n callee,
-                       args := List.replicate npos .unknown,
-                       kwargs := kws.map (fun k => (k, RM.unknown)),
-                       varargs := fa, varkwargs := fk,
-                       useVa := (hasHide fa true .va).1, useVk := (hasHide fk true .vk).1,
-                       hideA := (hasHide fa true .va).2, hideK := (hasHide fk true .vk).2 }]) := by
-  have hpar : ((mk n i c).ns (mk n i c).cur).parent.isSome = false := by simp [mk, VState.ns]
-  have hres2 := resolveCore_callee callee hc true (mk n i c)
-  have hres1 := resolveCore_marker n i c callee hc
-  have hvis : (if isNameNode callee = true then mk n i c else visit false callee (mk n i c)) = mk n i c := by
+      mk kids rev n' i (c ++ [{ wrapped := markerIn n callee,
+                                args := List.replicate npos .unknown,
+                                kwargs := kws.map (fun k => (k, RM.unknown)),
+                                varargs := fa, varkwargs := fk,
+                                useVa := (hasHide fa true .va).1, useVk := (hasHide fk true .vk).1,
+                                hideA := (hasHide fa true .va).2, hideK := (hasHide fk true .vk).2 }]) := by
+  have hpar : ((mk kids rev n i c).ns (mk kids rev n i c).cur).parent.isSome = false := by simp [mk, VState.ns]
+  have hres2 := resolveCore_callee callee hc true (mk kids rev n i c)
+  have hres1 := resolveCore_marker (kids := kids) (rev := rev) n i c callee hc
+  have hvis : (if isNameNode callee = true then mk kids rev n i c else visit false callee (mk kids rev n i c)) = mk kids rev n i c := by
     split
     · rfl
     · rename_i hn
       exact visit_callee_attr callee hc (by simpa using hn) _
   have htaint : (match markerIn n callee with
       | .attr _ _ => (match (markerIn n callee).instance with
-        | .arg x _ => (mk n i c).taint x
-        | _ => mk n i c)
-      | _ => mk n i c) = mk (taintCallee n (markerIn n callee)) i c := by
+        | .arg x _ => (mk kids rev n i c).taint x
+        | _ => mk kids rev n i c)
+      | _ => mk kids rev n i c) = mk kids rev (taintCallee n (markerIn n callee)) i c := by
     unfold taintCallee
     cases hm : markerIn n callee with
     | attr v a =>
@@ -220,7 +224,7 @@ theorem visit_callTree (va vk : Nat) (callee : Tree) (hc : isCalleeTree callee =
     | _ => rfl
   unfold callTree
   simp only [visit, hpar, Bool.and_false, Bool.false_eq_true, if_false]
-  rcases hr : resolveCore callee true (mk n i c) with ⟨⟨w, tw⟩, st1⟩
+  rcases hr : resolveCore callee true (mk kids rev n i c) with ⟨⟨w, tw⟩, st1⟩
   rw [hr] at hres1 hres2
   simp only at hres1 hres2
   subst hres1 hres2
